@@ -53,6 +53,8 @@ static int _lock_set (int fd);
 
 static pid_t _lock_is_set (int fd);
 
+static int _lock_is_stale (int fd, const char *name);
+
 
 /*****************************************************************************
  *  Public Functions
@@ -135,6 +137,19 @@ lock_create (conf_t conf)
                     "Failed to lock \"%s\": Inconsistent lock state",
                     conf->lockfile_name);
         }
+    }
+    else if (_lock_is_stale (conf->lockfile_fd, conf->lockfile_name)) {
+        /*
+         *  The lock was obtained on a file that is no longer the one the
+         *    lockfile name refers to: another instance unlinked it (while
+         *    shutting down) between the open() and the fcntl() above.
+         *    This lock excludes no one, so give it up.
+         */
+        (void) close (conf->lockfile_fd);
+        conf->lockfile_fd = -1;
+        log_err_or_warn (conf->got_force,
+                "Failed to lock \"%s\": Lockfile was replaced during startup",
+                conf->lockfile_name);
     }
     return;
 }
@@ -260,6 +275,29 @@ _lock_set (int fd)
             return (1);
         }
         return (-1);
+    }
+    return (0);
+}
+
+
+static int
+_lock_is_stale (int fd, const char *name)
+{
+/*  Tests whether the locked file descriptor 'fd' still refers to the file
+ *    that the lockfile 'name' refers to.
+ *  Returns 0 if it does, or 1 if it does not (or if this cannot be checked).
+ */
+    struct stat st_fd;
+    struct stat st_name;
+
+    if (fstat (fd, &st_fd) < 0) {
+        return (1);
+    }
+    if (stat (name, &st_name) < 0) {
+        return (1);
+    }
+    if ((st_fd.st_dev != st_name.st_dev) || (st_fd.st_ino != st_name.st_ino)) {
+        return (1);
     }
     return (0);
 }
